@@ -267,7 +267,14 @@ def edited(m, pre):
         return m
     m2 = json.loads(json.dumps(m))
     for e in pre:
-        if e['k'] == 'nodes':
+        if e['k'] == 'useless':
+            used = {v for _, _, cs in m2['elems'] for c in cs for v in c}
+            keep = [j for j, i in enumerate(m2['nodes']['ids']) if i in used]
+            m2['nodes'] = {'ids': [m2['nodes']['ids'][j] for j in keep], 'rows': [m2['nodes']['rows'][j] for j in keep]}
+            for v in m2['nodal']:
+                kp = [j for j, i in enumerate(v[1]) if i in used]
+                v[1], v[2] = [v[1][j] for j in kp], [v[2][j] for j in kp]
+        elif e['k'] == 'nodes':
             rows = dict(zip(m2['nodes']['ids'], m2['nodes']['rows']))
             rows.update(zip(e['ids'], e['rows']))
             m2['nodes']['rows'] = [rows[i] for i in m2['nodes']['ids']]
@@ -292,6 +299,9 @@ def pre_l(pre):
             continue
         if e['k'] == 'conn':
             out.append('(EditConn [' + ';'.join(zl(r) for r in e['rows']) + '])')
+            continue
+        if e['k'] == 'useless':
+            out.append('EditUseless')
             continue
         t = table_l(list(zip(e['ids'], e['rows'])))
         out.append(f'(EditNodes {t})' if e['k'] == 'nodes' else f'(EditNodal {e["var"]}%nat {t})')
@@ -816,6 +826,10 @@ def gen_mids(rng, m, ops):
         pick.append(ct[0])
     for op in pick:
         mid = [e for e in gen_pre(rng, m)]
+        if 'subset' not in m['var_modes'] and rng.random() < 0.3:
+            # the in-place modification of the library between the two calls (only BEFORE edits by id:
+            # afterwards the removed ids are gone)
+            mid = [{'k': 'useless'}]
         if not mid:
             continue
         if rng.random() < 0.65:
